@@ -38,9 +38,10 @@ def intersect(r1, z1, r2, z2, closed1=True, closed2=True):
             # Test for intersection between two line segments:
             # (r1[i],z1[i]) -- (r1[i+1],z1[i+1])
             # (r1[j],z1[j]) -- (r1[j+1],z1[j+1])
-            # Note that since polynomials are closed the indices wrap around
-            ip = (i + 1) % n1
-            jp = (j + 1) % n2
+            # Note that if polynomials are closed the indices wrap around (for an open
+            # one the last segment ends at the last point)
+            ip = (i + 1) % len(r1)
+            jp = (j + 1) % len(r2)
 
             a = r1[ip] - r1[i]
             b = r2[jp] - r2[j]
